@@ -52,10 +52,12 @@ class C08(HistoryProperty):
     NONTRIVIAL_MEASURE = "history_with_overlap"
 
     def gen_case(self, rng, tier):
-        cfg = gen.swarm_cfg(rng, off=("shape_change",), on=("presets", "default_presets", "dataset", "derive", "withopts"))
+        cfg = gen.swarm_cfg(rng, off=("shape_change",), on=("presets", "default_presets", "dataset", "derive", "withopts", "map"))
         cfg["partial_section_preset"] = rng.random() < 0.8
         spec = gen.gen_spec(rng, cfg)
         wrappers = [n["id"] for n in spec["nodes"] if wrapper_equivalent(spec, n["id"], {}) is not None]
+        maps = [n["id"] for n in spec["nodes"] if n["k"] == "map"]
+        spec["roots"] = spec["roots"] + rng.sample(maps, min(len(maps), 2))
         extra = rng.sample(wrappers, min(len(wrappers), 3))
         spec["roots"] = list(dict.fromkeys(spec["roots"] + extra))
         # the unwrapped counterparts are evaluated too, on the same warm world (shared caches)
@@ -80,6 +82,15 @@ class C08(HistoryProperty):
                     res.violate("input-mutated", op_index=i, node=op["node"], o=op["o"], what=[list(m) for m in w.mutations[:3]], op_kind=op["op"])
                     break
                 if op["op"] not in ("evaluate", "call"):
+                    continue
+                n0 = gen.node_by_id(spec, op["node"])
+                if n0["k"] == "map":
+                    # Map: one (assignment, result) pair per element of the product, each evaluated with that assignment
+                    # overriding the caller's options (an independent overlay again)
+                    bad = self._check_map(res, w, spec, n0, op, out)
+                    if bad:
+                        res.violate("map-element-not-evaluated-under-its-assignment", op_index=i, node=op["node"], o=op["o"], **bad)
+                        break
                     continue
                 eq = wrapper_equivalent(spec, op["node"], op["o"])
                 if eq is None:
@@ -119,6 +130,42 @@ class C08(HistoryProperty):
                 res.seen("history_with_overlap", (spec, case["ops"]))
             res.sample = self.sample_of(case)
         return res
+
+    @staticmethod
+    def _check_map(res, w, spec, n, op, out):
+        import itertools
+
+        from ..rt import crepr, freeze
+
+        t = World(spec, record=False)
+        for sop in w.structural:
+            t.do(sop)
+        lists = []
+        for key, it in n["iterables"].items():
+            ok, v = t.raw(it, op["o"])
+            if not ok:
+                return None  # the iterables cannot be evaluated: nothing to compare
+            try:
+                lists.append([(key, x) for x in v])
+            except TypeError:
+                return None
+        want = []
+        for combo in itertools.product(*lists):
+            o2 = copy.deepcopy(op["o"])
+            for key, x in combo:
+                top = {}
+                U.set_path(top, key, x)
+                o2 = U.overlay(o2, top)
+            ok, v = World(spec, record=False).raw(n["target"], o2) if not w.structural else t.raw(n["target"], o2)
+            if not ok:
+                return None
+            want.append(freeze(v) if n.get("values") else (freeze(dict(combo)), freeze(v)))
+        res.bump("map_equations_checked")
+        if not out.ok:
+            return {"got": out.brief(), "expected": crepr(tuple(want))[:300]}
+        if out.value != crepr(tuple(want)):
+            return {"got": out.value[:300], "expected": crepr(tuple(want))[:300]}
+        return None
 
     def signature(self, case, violation):
         if gen.scalar_at_section_prefix(case["spec"], [op["o"] for op in case["ops"] if "o" in op]):
